@@ -1017,7 +1017,7 @@ func (t *Topic) saveAndBroadcastMessage(msg *ClientComMessage, asUid types.Uid, 
 	if t.cat != types.TopicCatSys {
 		// If it's not 'sys' check write permission. A deleted (unsubscribed) P2P user keeps
 		// the old modes in cache but is not a subscriber any more.
-		if !(pud.modeWant&pud.modeGiven).IsWriter() || pud.deleted {
+		if !(pud.modeWant & pud.modeGiven).IsWriter() || pud.deleted {
 			msg.sess.queueOut(ErrPermissionDenied(msg.Id, t.original(asUid), msg.Timestamp))
 			return types.ErrPermissionDenied
 		}
@@ -2053,6 +2053,14 @@ func (t *Topic) anotherUserSub(sess *Session, asUid, target types.Uid, asChan bo
 			modeGiven: sub.ModeGiven,
 			modeWant:  sub.ModeWant,
 			private:   nil,
+			// P2P only: the entry of a re-invited participant was kept (marked deleted) when the user
+			// unsubscribed. The name by which the user addresses the topic and the user's description
+			// do not change with the subscription.
+			public:    userData.public,
+			trusted:   userData.trusted,
+			lastSeen:  userData.lastSeen,
+			lastUA:    userData.lastUA,
+			topicName: userData.topicName,
 		}
 		t.perUser[target] = userData
 		t.computePerUserAcsUnion()
